@@ -86,7 +86,7 @@ var toutTerm = map[string]string{"ok": "TOk", "exit": "TExit", "invol": "TInvol"
 
 func hookTerm(n *namer, h Hook) string {
 	kind := "HCall"
-	await := h.Await
+	await := declaredAwait(h)
 	if h.Kind == "task" {
 		kind = "HTask"
 		await = h.Trig
@@ -269,6 +269,10 @@ func caseTerm(in Input, o Obs) string {
 	if init == "" {
 		init = "STANDBY"
 	}
-	return fmt.Sprintf("CRun %s %s %s (mkObs %s %s %s %s)", gen.List(hooks), init, gen.List(ops),
-		gen.List(recTerms(n, in, o.Recs)), gen.List(oos), gen.Bool(o.Crashed), gen.Bool(o.Hung))
+	var aws []string
+	for _, a := range o.Awaits {
+		aws = append(aws, gen.Pair(strconv.Itoa(a.Hook), n.point(a.Await)))
+	}
+	return fmt.Sprintf("CRun %s %s %s (mkObs %s %s %s %s %s)", gen.List(hooks), init, gen.List(ops),
+		gen.List(recTerms(n, in, o.Recs)), gen.List(oos), gen.Bool(o.Crashed), gen.Bool(o.Hung), gen.List(aws))
 }
